@@ -109,7 +109,7 @@ func TestC11(t *testing.T) {
 				if len(zoneBatches) > 0 && ci < len(snap) && ci%2 == 0 {
 					// every other crash point lands right around a multi-op zone batch: before it, after it, a few writes later
 					cp = zoneBatches[cut%len(zoneBatches)] + 1 + snap[ci]
-					if len(utxoBatches) > 0 && ci%4 == 0 {
+					if len(utxoBatches) > 0 {
 						cp = utxoBatches[cut%len(utxoBatches)] + 1 + snap[ci]
 					}
 				}
@@ -212,8 +212,15 @@ func TestC11(t *testing.T) {
 			g.Seen("nontrivial", tr.Digest())
 		}
 		g.Sample(map[string]any{"prologue": c.Prologue, "ops": renderTape(c.Tape), "cuts": cuts})
+		nl := NodeLog.String()
+		if len(nl) > 3000 {
+			nl = nl[len(nl)-3000:]
+		}
 		NodeLog.Reset()
 		if v != nil {
+			if nl != "" {
+				v.detail += "\nnodelog tail:\n" + nl
+			}
 			if simkit.Violation(rt, tr, "C11", v.class, v.witness, fmt.Sprintf("%s\nprologue=%d tape=%v cuts=%v snap=%v", v.detail, c.Prologue, renderTape(c.Tape), cuts, snap)) {
 				panic(simkit.KnownReached{})
 			}
